@@ -15,15 +15,44 @@ use serde_test::Token;
 use std::any::Any;
 use std::collections::BTreeMap;
 
-struct LyingSeq {
-    items: Vec<u32>,
+/// Element types the serde harness can drive: how they look as serde_test tokens.
+pub trait Tok: Copy + Ord + std::fmt::Debug + serde::Serialize + for<'de> serde::Deserialize<'de> + for<'de> IntoDeserializer<'de, ValueError> + 'static {
+    fn push_tokens(&self, out: &mut Vec<Token>);
+}
+impl Tok for u32 {
+    fn push_tokens(&self, out: &mut Vec<Token>) {
+        out.push(Token::U32(*self));
+    }
+}
+impl Tok for () {
+    fn push_tokens(&self, out: &mut Vec<Token>) {
+        out.push(Token::Unit);
+    }
+}
+pub trait TokV: Copy + PartialEq + std::fmt::Debug + serde::Serialize + for<'de> serde::Deserialize<'de> + 'static {
+    fn push_tokens(&self, out: &mut Vec<Token>);
+}
+impl TokV for PVal {
+    fn push_tokens(&self, out: &mut Vec<Token>) {
+        out.push(Token::NewtypeStruct { name: "PVal" });
+        out.push(Token::U32(self.0));
+    }
+}
+impl TokV for () {
+    fn push_tokens(&self, out: &mut Vec<Token>) {
+        out.push(Token::Unit);
+    }
+}
+
+struct LyingSeq<T> {
+    items: Vec<T>,
     pos: usize,
     hint: u8,
     fail_at: Option<u32>,
     delivered: std::rc::Rc<std::cell::Cell<usize>>,
 }
 
-impl<'de> SeqAccess<'de> for LyingSeq {
+impl<'de, E: Tok> SeqAccess<'de> for LyingSeq<E> {
     type Error = ValueError;
     fn next_element_seed<T: DeserializeSeed<'de>>(&mut self, seed: T) -> Result<Option<T::Value>, ValueError> {
         let _g = crate::alloc::HarnessGuard::new();
@@ -50,9 +79,9 @@ impl<'de> SeqAccess<'de> for LyingSeq {
     }
 }
 
-struct SeqDe(LyingSeq);
+struct SeqDe<E>(LyingSeq<E>);
 
-impl<'de> Deserializer<'de> for SeqDe {
+impl<'de, E: Tok> Deserializer<'de> for SeqDe<E> {
     type Error = ValueError;
     fn deserialize_any<V: Visitor<'de>>(self, visitor: V) -> Result<V::Value, ValueError> {
         visitor.visit_seq(self.0)
@@ -64,12 +93,19 @@ impl<'de> Deserializer<'de> for SeqDe {
 }
 
 pub fn dispatch_serde<K: KeyT, V: ValT>(w: &mut World<K, V>, acc: &mut Acc, op: &Op) {
-    if K::CLASS != ElemClass::Plain {
-        acc.out.res = "skipped (serde harness runs on the Plain element class)".to_string();
-        return;
-    }
     let any: &mut dyn Any = w;
-    let w: &mut World<u32, PVal> = any.downcast_mut().expect("plain world");
+    if K::CLASS == ElemClass::Plain {
+        let w: &mut World<u32, PVal> = any.downcast_mut().expect("plain world");
+        serde_ops::<u32, PVal>(w, acc, op);
+    } else if K::CLASS == ElemClass::Zst {
+        let w: &mut World<(), ()> = any.downcast_mut().expect("zst world");
+        serde_ops::<(), ()>(w, acc, op);
+    } else {
+        acc.out.res = "skipped (serde harness runs on the Plain and Zst element classes)".to_string();
+    }
+}
+
+fn serde_ops<K2: KeyT + Tok, V2: ValT + TokV>(w: &mut World<K2, V2>, acc: &mut Acc, op: &Op) {
     match op {
         Op::SerdeMap { m } => {
             let mi = *m as usize;
@@ -83,9 +119,8 @@ pub fn dispatch_serde<K: KeyT, V: ValT>(w: &mut World<K, V>, acc: &mut Acc, op: 
                 let mut tokens = vec![Token::Map { len: Some(sut(|| slot.m.len())) }];
                 let mut n = 0usize;
                 for (k, v) in sut(|| slot.m.iter()) {
-                    tokens.push(Token::U32(*k));
-                    tokens.push(Token::NewtypeStruct { name: "PVal" });
-                    tokens.push(Token::U32(v.0));
+                    Tok::push_tokens(k, &mut tokens);
+                    TokV::push_tokens(v, &mut tokens);
                     n += 1;
                 }
                 tokens.push(Token::MapEnd);
@@ -127,7 +162,7 @@ pub fn dispatch_serde<K: KeyT, V: ValT>(w: &mut World<K, V>, acc: &mut Acc, op: 
                     let mut tokens = vec![Token::Seq { len: Some(sut(|| slot.s.len())) }];
                     let mut n = 0usize;
                     for k in sut(|| slot.s.iter()) {
-                        tokens.push(Token::U32(*k));
+                        Tok::push_tokens(k, &mut tokens);
                         n += 1;
                     }
                     tokens.push(Token::SeqEnd);
@@ -160,15 +195,15 @@ pub fn dispatch_serde<K: KeyT, V: ValT>(w: &mut World<K, V>, acc: &mut Acc, op: 
             // contents, from a stream that may lie about its length and may fail
             let dst_before = w.sets[di].s.verif_state();
             let (src, d) = two_mut(&mut w.sets, si, di);
-            let items: Vec<u32> = src.s.iter().copied().collect();
+            let items: Vec<K2> = src.s.iter().copied().collect();
             let delivered = std::rc::Rc::new(std::cell::Cell::new(0usize));
             let total = items.len();
             let fails = fail_at.map_or(false, |f| (f as usize) <= total);
             let de = SeqDe(LyingSeq { items: items.clone(), pos: 0, hint: *hint, fail_at: *fail_at, delivered: delivered.clone() });
-            let r = call(|| sut(|| Set::<u32>::deserialize_in_place(de, &mut d.s)));
+            let r = call(|| sut(|| Set::<K2>::deserialize_in_place(de, &mut d.s)));
             match r.result {
                 Ok(res) => {
-                    let observed: BTreeMap<u32, u64> = d.s.iter().map(|&k| (k, 0u64)).collect();
+                    let observed: BTreeMap<u32, u64> = d.s.iter().map(|k| (k.kv(), 0u64)).collect();
                     match res {
                         Ok(()) => {
                             if fails {
@@ -184,7 +219,7 @@ pub fn dispatch_serde<K: KeyT, V: ValT>(w: &mut World<K, V>, acc: &mut Acc, op: 
                             if !fails {
                                 acc.wrong(format!("deserialize_in_place failed on a good stream: {}", e));
                             }
-                            let prefix: std::collections::BTreeSet<u32> = items[..delivered.get().min(total)].iter().copied().collect();
+                            let prefix: std::collections::BTreeSet<u32> = items[..delivered.get().min(total)].iter().map(|k| k.kv()).collect();
                             if observed.keys().any(|k| !prefix.contains(k)) {
                                 acc.wrong("after a failed deserialize_in_place the set holds elements that were not delivered".to_string());
                             }
